@@ -552,7 +552,7 @@ def rule_parsers(run, prog):
         toks = [TokenStub(f"T{i}", (1, 1), None) for i in range(n)]
 
         def stub(i):
-            def parser(me):
+            def parser(me=None):
                 sim.trace.append(("parser", i))
                 return toks[i] if i in matching else None
             return parser
